@@ -193,11 +193,23 @@ func Parse(line string, b literal.Builder) (*Triple, error) {
 	// The object split has to be searched after the beginning of the predicate; the
 	// subject ID may contain text that looks like the end of a predicate.
 	pStart := idxp[1] - 1
-	idxo := oSplit.FindIndex([]byte(raw[pStart:]))
+	// Skip the quoted predicate ID, honoring backslash escapes; the ID may also
+	// contain text that looks like the end of a predicate.
+	idEnd := pStart + 1
+	for idEnd < len(raw) && raw[idEnd] != '"' {
+		if raw[idEnd] == '\\' {
+			idEnd++
+		}
+		idEnd++
+	}
+	if idEnd > len(raw) {
+		idEnd = len(raw)
+	}
+	idxo := oSplit.FindIndex([]byte(raw[idEnd:]))
 	if len(idxo) == 0 {
 		return nil, fmt.Errorf("triple.Parse could not split s p o  out of %s", raw)
 	}
-	idxo[0], idxo[1] = idxo[0]+pStart, idxo[1]+pStart
+	idxo[0], idxo[1] = idxo[0]+idEnd, idxo[1]+idEnd
 	ss, sp, so := raw[0:idxp[0]+1], raw[idxp[1]-1:idxo[0]+1], raw[idxo[1]-1:]
 	s, err := node.Parse(ss)
 	if err != nil {
